@@ -63,6 +63,9 @@ fn fixed_random_state() -> std::hash::RandomState {
 /// Stub for qevent::telemetry::Span::current: the value the thread-local holds when no qlog span was
 /// entered (Span::default(): NoopExporter, no fields).
 fn stub_span_current() -> qevent::telemetry::Span {
+    // a fresh value per call (MEASURED: a shared span cloned per call makes the Arc reference counts
+    // symbolic for CBMC's symbolic execution and every drop explores the map's drop glue: no verdict
+    // in 1500 s, against 250 s for the fresh value)
     qevent::telemetry::macro_support::new_span(
         Arc::new(qevent::telemetry::handy::NoopExporter),
         std::collections::HashMap::new(),
@@ -175,7 +178,7 @@ impl Sources {
 ///     let mut packet = space.new_packet(self.new_header()?, self.cc, buffer)?;       // DataSpace: PacketWriter::new_short
 ///     *packet_content += packet.assemble_packet(&mut Packages((data_sources, PadTo20)))?;
 ///     let (sent_bytes, props) = packet.encrypt_and_protect_packet();
-fn tr_assemble(journal: &ArcSentJournal<GuaranteedFrame>, buffer: &mut [u8], s: Sources) -> Result<(usize, PacketInfo, u64), Signals> {
+fn tr_assemble(journal: &ArcSentJournal<GuaranteedFrame>, buffer: &mut [u8], s: Sources, pn_seen: &mut Option<u64>) -> Result<(usize, PacketInfo), Signals> {
     let mut packet = PacketWriter::new_short(
         header(),
         buffer,
@@ -188,6 +191,7 @@ fn tr_assemble(journal: &ArcSentJournal<GuaranteedFrame>, buffer: &mut [u8], s: 
     // the number the writer put into the header / will seal with == the number the journal handed out
     let pn = packet.clerk.pn().0;
     assert!(packet.packet_number() == pn, "writer's packet number == clerk.pn()");
+    *pn_seen = Some(pn);
     let data_sources = Packages((
         s.ping.then_some(PingFrame),
         s.max_data.then_some(MaxDataFrame::new(VarInt::from_u32(70000))),
@@ -195,32 +199,30 @@ fn tr_assemble(journal: &ArcSentJournal<GuaranteedFrame>, buffer: &mut [u8], s: 
     ));
     packet.assemble_packet(&mut Packages((data_sources, PadTo20)))?;
     let (sent_bytes, props) = packet.encrypt_and_protect_packet();
-    Ok((sent_bytes, props, pn))
+    Ok((sent_bytes, props))
 }
 
-/// One assemble step + its oracle. Returns whether a packet left.
-fn assemble_step(journal: &ArcSentJournal<GuaranteedFrame>, s: Sources) -> Option<u64> {
-    let before = peek_next(journal);
+/// One assemble step + its oracle. `expect_pn`: the harness's bookkeeping of the next unused number.
+/// Returns the number the NEXT writer must get and whether a packet left.
+fn assemble_step(journal: &ArcSentJournal<GuaranteedFrame>, s: Sources, expect_pn: u64) -> (u64, bool) {
     let sealed_before = nsealed();
     let mut buffer = [0u8; BUF];
-    let r = tr_assemble(journal, &mut buffer[..], s);
-    let after = peek_next(journal);
+    let mut pn_seen = None;
+    let r = tr_assemble(journal, &mut buffer[..], s, &mut pn_seen);
+    assert!(pn_seen == Some(expect_pn), "the writer got the next unused number: larger than every number that left, equal to an abandoned one");
     match r {
-        Ok((sent_bytes, props, pn)) => {
+        Ok((sent_bytes, props)) => {
             assert!(s.any(), "a packet leaves only if some source wrote a frame");
-            assert!(pn == before, "the writer got the next unused number");
-            assert!(props.packet_number() == pn);
+            assert!(props.packet_number() == expect_pn);
             assert!(nsealed() == sealed_before + 1, "exactly one packet sealed");
-            assert!(sealed(sealed_before) == pn, "sealed with the number handed out (nonce)");
-            assert!(after == before + 1, "a packet that left consumed its number");
+            assert!(sealed(sealed_before) == expect_pn, "sealed with the number handed out (nonce)");
             assert!(sent_bytes >= 1 + 20 && sent_bytes <= BUF);
-            Some(pn)
+            (expect_pn + 1, true)
         }
         Err(_signals) => {
             assert!(!s.any(), "assemble fails only if no source had anything to send");
             assert!(nsealed() == sealed_before, "nothing sealed");
-            assert!(after == before, "an abandoned assembly consumes nothing");
-            None
+            (expect_pn, false)
         }
     }
 }
@@ -237,15 +239,16 @@ fn c07_j_tx_packet_writer_two_packets() {
     let journal = ArcSentJournal::<GuaranteedFrame>::with_capacity(2);
     let s1 = any_sources();
     let s2 = any_sources();
-    let p1 = assemble_step(&journal, s1);
-    let p2 = assemble_step(&journal, s2);
-    if let (Some(a), Some(b)) = (p1, p2) {
-        assert!(a < b, "no two packets are protected with the same packet number");
-        assert!(sealed(0) < sealed(1));
+    let (n1, left1) = assemble_step(&journal, s1, 0);
+    let (n2, left2) = assemble_step(&journal, s2, n1);
+    if left1 && left2 {
+        assert!(sealed(0) < sealed(1), "no two packets are protected with the same packet number");
     }
-    kani::cover!(p1.is_some() && p2.is_some() && s1.journal_frames() == 0, "first packet trivial (Ping only), second follows");
-    kani::cover!(p1.is_some() && s1.journal_frames() == 2, "packet with two journal frames");
-    kani::cover!(p1.is_none() && p2.is_some(), "abandoned assembly, then a packet with the same number");
+    // what a third writer would get
+    assert!(peek_next(&journal) == n2, "a packet that left consumed its number, an abandoned assembly none");
+    kani::cover!(left1 && left2 && s1.journal_frames() == 0, "first packet trivial (Ping only), second follows");
+    kani::cover!(left1 && s1.journal_frames() == 2, "packet with two journal frames");
+    kani::cover!(!left1 && left2, "abandoned assembly, then a packet with the same number");
     core::mem::forget(journal);
 }
 
@@ -261,13 +264,13 @@ fn c07_j_tx_packet_writer_two_packets() {
 #[kani::stub(core::slice::index::slice_index_fail, stub_slice_index_fail)]
 fn c07_j_tx_packet_writer_scenario() {
     let journal = ArcSentJournal::<GuaranteedFrame>::with_capacity(2);
-    let p1 = assemble_step(&journal, Sources { ping: true, max_data: false, handshake_done: false });
-    let p2 = assemble_step(&journal, Sources { ping: false, max_data: false, handshake_done: false });
-    let p3 = assemble_step(&journal, Sources { ping: false, max_data: true, handshake_done: true });
-    let p4 = assemble_step(&journal, Sources { ping: true, max_data: true, handshake_done: false });
-    assert!(p1 == Some(0) && p2.is_none() && p3 == Some(1) && p4 == Some(2));
-    assert!(nsealed() == 3 && sealed(0) == 0 && sealed(1) == 1 && sealed(2) == 2, "nonces 0, 1, 2: never the same twice");
-    kani::cover!(peek_next(&journal) == 3, "three numbers consumed by three packets");
+    let (n1, l1) = assemble_step(&journal, Sources { ping: true, max_data: false, handshake_done: false }, 0);
+    let (n2, l2) = assemble_step(&journal, Sources { ping: false, max_data: false, handshake_done: false }, n1);
+    let (n3, l3) = assemble_step(&journal, Sources { ping: false, max_data: true, handshake_done: true }, n2);
+    assert!(l1 && !l2 && l3 && n1 == 1 && n2 == 1 && n3 == 2);
+    assert!(nsealed() == 2 && sealed(0) == 0 && sealed(1) == 1, "nonces 0, 1: never the same twice");
+    assert!(peek_next(&journal) == 2, "two numbers consumed by two packets, none by the abandoned assembly");
+    kani::cover!(nsealed() == 2, "two packets sealed");
     core::mem::forget(journal);
 }
 
@@ -294,29 +297,24 @@ fn tr_closing(journal: &ArcSentJournal<GuaranteedFrame>, buffer: &mut [u8], ccf:
 fn c07_j_tx_trivial_writer_two_packets() {
     let journal = ArcSentJournal::<GuaranteedFrame>::with_capacity(2);
     // concrete: a symbolic code makes the varint width, hence every later buffer offset, symbolic
-    let code: u32 = 0x17;
-    let ccf = ConnectionCloseFrame::new_app(VarInt::from_u32(code), "");
-    let first = peek_next(&journal);
+    let ccf = ConnectionCloseFrame::new_app(VarInt::from_u32(0x17), "");
     let mut b1 = [0u8; BUF];
     let r1 = tr_closing(&journal, &mut b1[..], &ccf);
     let Some((n1, pn1)) = r1 else {
         panic!("a CONNECTION_CLOSE frame fits a 48-byte buffer");
     };
-    assert!(pn1 == first && nsealed() == 1 && sealed(0) == pn1);
+    assert!(pn1 == 0 && nsealed() == 1 && sealed(0) == pn1);
     assert!(n1 >= 21 && n1 <= BUF);
-    assert!(peek_next(&journal) == pn1 + 1, "the closing packet consumed its number");
     // a second closing packet (send_ccf_packets is re-run for every packet received while closing)
     let mut b2 = [0u8; BUF];
     let r2 = tr_closing(&journal, &mut b2[..], &ccf);
     let Some((_n2, pn2)) = r2 else {
         panic!("second closing packet");
     };
-    assert!(pn2 > pn1 && pn2 == pn1 + 1, "strictly larger number for the next packet");
+    assert!(pn2 > pn1 && pn2 == pn1 + 1, "the closing packet consumed its number: strictly larger number for the next packet");
     assert!(nsealed() == 2 && sealed(1) == pn2 && sealed(0) < sealed(1), "never the same nonce twice");
-    // and an ordinary packet after it
-    let p3 = assemble_step(&journal, Sources { ping: true, max_data: false, handshake_done: false });
-    assert!(p3 == Some(pn2 + 1));
-    kani::cover!(nsealed() == 3, "three packets sealed");
+    assert!(peek_next(&journal) == pn2 + 1);
+    kani::cover!(nsealed() == 2, "two packets sealed");
     core::mem::forget(journal);
     core::mem::forget(ccf);
 }
